@@ -122,7 +122,7 @@ def at_scale_case(ctx, g, rng):
 
 
 def run_case(ctx, g, rng):
-    if g % 100 == 100 - 1:
+    if g % 103 == 103 - 1:
         return at_scale_case(ctx, g, rng)
     api, S = ctx.api, probe.S
     tmp = ctx.tmp
